@@ -323,16 +323,21 @@ fn relative<'a>(base: &SourceKind, url: &'a str) -> Cow<'a, str> {
         .map_or_else(|| url.into(), Cow::Owned)
 }
 
-/// Remove `.` segments and fold `dir/..` segments of a relative url,
-/// so that different spellings of a url name the same file.
+/// Remove `.` and empty segments and fold `dir/..` segments of a relative
+/// url, so that different spellings of a url name the same file.
 fn normalize(url: &str) -> Cow<'_, str> {
-    if url.contains("://") || !url.split('/').any(|s| s == "." || s == "..") {
+    if url.contains("://")
+        || !(url.contains("//")
+            || url.split('/').any(|s| s == "." || s == ".."))
+    {
         return url.into();
     }
+    let last = url.split('/').count() - 1;
     let mut result: Vec<&str> = Vec::new();
-    for segment in url.split('/') {
+    for (i, segment) in url.split('/').enumerate() {
         match segment {
             "." => (),
+            "" if i != 0 && i != last => (),
             ".." if result
                 .last()
                 .is_some_and(|s| !s.is_empty() && *s != "..") =>
